@@ -15,6 +15,7 @@ func Run(c *fw.Ctx) {
 	c.Cases("numeric", c.N(900, 12000), func(cs *fw.Case) { runNumeric(cs, cs.R) })
 	// (b) EM trajectories
 	c.Cases("em.mixture.scalar", c.N(2400, 40000), func(cs *fw.Case) { runEmScalarMixture(cs, cs.R) })
+	c.Cases("em.mixture.discrete", c.N(2400, 40000), func(cs *fw.Case) { runEmDiscreteMixture(cs, cs.R) })
 	c.Cases("em.mixture.vector", c.N(1200, 16000), func(cs *fw.Case) { runEmVectorMixture(cs, cs.R) })
 	c.Cases("em.hmm", c.N(1800, 30000), func(cs *fw.Case) { runEmHmm(cs, cs.R, nil) })
 	// the option OptimizeTransitions=false of the Baum-Welch driver (directed)
